@@ -14,9 +14,23 @@ WALKERS = [
 ]
 
 
+# name of the walker's removal counter (a local of type Saturating<usize>); found by type per walker, `skip` on the reference tree
+SK = ["skip"]
+
+
+def counter_name(h):
+    names = []
+    for l in H.nodes(h["body"], "let"):
+        pat = l[1]
+        if H.tag(pat) == "bind" and "Saturating<usize>" in str(pat[2]) and l[2] is not None and H.tag(l[2]) == "call" \
+                and H.call_args(l[2]) and H.tag(H.call_args(l[2])[0]) == "lit" and H.call_args(l[2])[0][2] == 0:
+            names.append(pat[1])
+    return names[0] if len(names) == 1 else "skip"
+
+
 def is_skip_zero(c):
     """`skip.0 == 0`"""
-    return H.tag(c) == "binary" and c[1] == "==" and H.tag(c[2]) == "field" and H.local_name(c[2][1]) == "skip" \
+    return H.tag(c) == "binary" and c[1] == "==" and H.tag(c[2]) == "field" and H.local_name(c[2][1]) == SK[0] \
         and H.tag(c[3]) == "lit" and c[3][2] == 0
 
 
@@ -63,7 +77,7 @@ def unguarded_effects(f, corecall, variant):
                     and contains(sd, lambda x: x[0] == "call" and str(x[1]).endswith("::" + corecall)):
                 in_arm = True
             r = rel_fact(d, val)
-            if r and r[0] == "Eq" and r[2][:2] == ("const", 0) and contains(r[1], lambda x: x[0] == "var" and f.varnames.get(x[1]) == "skip"):
+            if r and r[0] == "Eq" and r[2][:2] == ("const", 0) and contains(r[1], lambda x: x[0] == "var" and f.varnames.get(x[1]) == SK[0]):
                 zero = True
         if not in_arm:
             continue
@@ -76,7 +90,7 @@ def unguarded_effects(f, corecall, variant):
             tgt = s[1][0]
             if s[1] == [0]:
                 out.append("return")
-            elif len(s[1]) == 1 and f.varnames.get(tgt) and f.varnames.get(tgt) != "skip" and len(f.defs.get(tgt, [])) > 1 \
+            elif len(s[1]) == 1 and f.varnames.get(tgt) and f.varnames.get(tgt) != SK[0] and len(f.defs.get(tgt, [])) > 1 \
                     and s[2][0] == "use" and s[2][1][0] == "c":
                 out.append("%s = .." % f.varnames.get(tgt))
         t = f.term(b)
@@ -157,6 +171,7 @@ def check_walker(prog, wname, corecall, positives):
     path = OBJ + "ObjValue::" + wname
     h = prog.hir.get(path)
     f = prog.fn(path)
+    SK[0] = counter_name(h) if h is not None else "skip"
     if h is None:
         return [bad(RULE, "%s:anchor" % wname, "", "walker %s not found" % path)]
     st = site(f)
@@ -223,8 +238,8 @@ def check_walker(prog, wname, corecall, positives):
     if H.tag(body) == "block":
         seq = list(body[1]) + ([body[2]] if body[2] is not None else [])
         last = seq[-1] if seq else None
-    if H.tag(last) == "assignop" and last[1] in ("-", "-=") and H.local_name(last[2]) == "skip" and H.tag(last[3]) == "lit" and last[3][2] == 1:
-        n_dec = sum(1 for a in H.nodes(body, "assignop") if H.local_name(a[2]) == "skip")
+    if H.tag(last) == "assignop" and last[1] in ("-", "-=") and H.local_name(last[2]) == SK[0] and H.tag(last[3]) == "lit" and last[3][2] == 1:
+        n_dec = sum(1 for a in H.nodes(body, "assignop") if H.local_name(a[2]) == SK[0])
         if n_dec == 1:
             obs.append(ok(RULE, key, st, "skip -= 1 is the last statement of every iteration"))
         else:
@@ -238,7 +253,7 @@ def check_walker(prog, wname, corecall, positives):
         for c in H.calls(body, suffix="::get_for_core"):
             args = H.call_args(c)
             a = args[-1]
-            if H.tag(a) == "binary" and a[1] == "!=" and H.tag(a[2]) == "field" and H.local_name(a[2][1]) == "skip" and H.tag(a[3]) == "lit" and a[3][2] == 0:
+            if H.tag(a) == "binary" and a[1] == "!=" and H.tag(a[2]) == "field" and H.local_name(a[2][1]) == SK[0] and H.tag(a[3]) == "lit" and a[3][2] == 0:
                 good = True
         obs.append(ok(RULE, key, st, "cores are asked with omit_only = (skip != 0)") if good else
                    bad(RULE, key, st, "get_for_core is not called with omit_only = (skip.0 != 0): masked layers would be evaluated"))
